@@ -1107,7 +1107,8 @@ def dumps(x, version=version, python_version=PYTHON_VERSION_TRIPLE):
             else:
                 buf.append(b)
 
-        return "".join(buf)
+        # Every chunk is bytes by now when running on Python 3.
+        return b"".join(buf) if PYTHON3 else "".join(buf)
 
 
 @builtinify
